@@ -157,7 +157,7 @@ def r09_1_order(chk):
     # the frame-data generators come from generate_logical_records, built per logical file in the same order:
     # what is handed to the generator is a list with one entry per logical file, in the order of self.logical_files,
     # each entry made of that logical file's own _make_multi_frame_data results
-    from ..terms import SELF, A, K, contains, subterms, is_call, call_arg, pp
+    from ..terms import SELF, A, K, contains, subterms, is_call, call_arg, pp, is_fresh_empty_list
     glr = df.lookup("generate_logical_records")
     chk.consult(glr)
     gs = chk.terms.inline(glr, 2, stop=lambda g: g.name in ("_make_multi_frame_data", "generator", "__init__"))
@@ -180,7 +180,7 @@ def r09_1_order(chk):
         elif a[0] == "comp" and a[1] == "list" and len(a[3]) == 1 and over_lfs(a[3][0][1]) and not a[3][0][2]:
             el = [x for x in subterms(a[2]) if x[0] == "elem" and x[1] == a[3][0][1]]
             ok = ok and bool(el) and per_lf_entry(a[2], el[0])
-        elif a in (("list", ()), ("call", ("global", "list"), (), ())):
+        elif is_fresh_empty_list(chk.terms, glr, a):
             apps = [e for e in gs.effects if e.kind == "call" and is_call(e.value, "append") and e.value[1][1] == a
                     and contains(e.value, lambda x: is_call(x, "_make_multi_frame_data"))]
             ok = ok and len(apps) == 1 and not apps[0].pc and len(apps[0].loops()) == 1 and \
